@@ -5,7 +5,7 @@ import gen
 import impl
 import msggen
 
-PROPFILES = ["props/C01.v"]
+PROPFILES = ["props/C01.v", "props/C01_src.v"]
 RULE = ("well-formed frames: every message id x msgmode{GET,SET,POLL,SETPOLL} x parsebitfield x payload lengths "
         "{0,1,2,definition-1,definition,definition+1,+7, 64,300} x fills, sentinel bytes (00 20 0a 0d ff) at either end of the payload in the definition's own mode, payloads containing pieces of the repr()/str() syntax itself or the protocols' sync bytes, frames whose checksum bytes are CR LF / sync bytes / quotes, serialize() and repr() called repeatedly, structure-aware conforming payloads, unknown "
         "class/ids (thorough: all 65536 x lengths 0..2); PARSE and PARSERT (eval(repr)) correspondence + search on the "
